@@ -50,6 +50,7 @@ Definition c_text (c : sexp) := getBytes (nthS 5 c).
 Definition c13_verdict (c : sexp) : res unit :=
   let o := c_opts c in
   if negb (opts_ok o) then Err E_OPTIONS else
+  if (c_path c =? 2) && match c_text c with [] => true | _ => false end then Err 51 (* index_chroms: "Empty file" *) else
   if c_ftype c =? 0 then
     if c_path c =? 0 then bw_text_serial f32_token_ok o (c_sizes c) (c_text c)
     else bw_text_parallel f32_token_ok o (c_sizes c) (c_text c)
@@ -66,18 +67,6 @@ Definition c13_model (c : sexp) : sexp :=
   end.
 
 (* ---- oracle ---- *)
-(* a chromosome that comes back in a later run *)
-Fixpoint run_names {V} (prev : option name) (l : list (name * V)) : list name :=
-  match l with
-  | [] => []
-  | (c, _) :: r => match prev with
-                   | Some p => if name_eqb c p then run_names prev r else c :: run_names (Some c) r
-                   | None => c :: run_names (Some c) r
-                   end
-  end.
-Fixpoint has_dup (l : list name) : bool :=
-  match l with [] => false | x :: r => existsb (name_eqb x) r || has_dup r end.
-
 (* does the parsed stream carry one of the property's violation classes? *)
 Definition violates {V} (vclass : N -> V -> option V -> option N) (o : opts) (sizes : list (name * N))
            (l : list (pline V)) : bool :=
@@ -85,17 +74,14 @@ Definition violates {V} (vclass : N -> V -> option V -> option N) (o : opts) (si
   | [] => true                                    (* empty input *)
   | _ => match all_ok l with
          | None => true                           (* a malformed line *)
-         | Some items => match first_some (classes vclass (o_sort_all o) sizes None items) with
+         | Some items => match first_some (classes vclass (o_sort_all o) sizes [] None items) with
                          | Some _ => true | None => false end
          end
   end.
-(* modelled but not claimed (DESIGN.md C13): without the chromosome-order requirement a chromosome
-   that comes back in a second run is not among the violation classes, and what the writers do
-   with it is not part of the property; an empty chromosome index handed to the parallel source
-   directly (the tools get an error from index_chroms first) *)
+(* modelled but not claimed: an empty chromosome index handed to the parallel source directly
+   yields an empty file; the tools never do that (index_chroms fails on an empty file first) *)
 Definition not_claimed {V} (c : sexp) (o : opts) (l : list (pline V)) : bool :=
-  (negb (o_sort_all o) && match all_ok l with Some items => has_dup (run_names None items) | None => false end)
-  || ((c_path c =? 1) && match l with [] => true | _ => false end).
+  (c_path c =? 1) && match l with [] => true | _ => false end.
 
 Definition c13_oracle (c out : sexp) : sexp :=
   let status := getZ (nthS 0 out) in
